@@ -180,6 +180,35 @@ func (g *sgen) schema(depth int) any {
 			s = append(s, KV{"maxProperties", RawNum(fmt.Sprint(1 + r.Intn(3)))})
 		}
 		if r.Chance(20) {
+			// members chosen by the shape of their names; one matched by a pattern is not "additional"
+			pp := OObj{}
+			for _, pat := range []string{"^[ab]$", "^c", "^d+$", "x"} {
+				if r.Chance(40) {
+					pp = append(pp, KV{pat, g.schema(depth - 1)})
+				}
+			}
+			s = append(s, KV{"patternProperties", pp})
+		}
+		if r.Chance(15) {
+			// (from 2019-09 on; under draft-07 an unknown word)
+			dr := OObj{}
+			for _, k := range []string{"a", "b", "d"} {
+				if r.Chance(50) {
+					var need []any
+					for _, m := range []string{"a", "b", "c", "zz"} {
+						if m != k && r.Chance(40) {
+							need = append(need, m)
+						}
+					}
+					if need == nil {
+						need = []any{}
+					}
+					dr = append(dr, KV{k, need})
+				}
+			}
+			s = append(s, KV{"dependentRequired", dr})
+		}
+		if r.Chance(20) {
 			// the member names themselves, as string instances
 			pn := []any{OObj{{"maxLength", RawNum("1")}}, OObj{{"pattern", "^[ab]"}}, OObj{{"const", "a"}}, OObj{{"enum", []any{"a", "c", "zz"}}}, false, true, OObj{{"type", "string"}}, OObj{{"type", "number"}}}
 			s = append(s, KV{"propertyNames", pn[r.Intn(len(pn))]})
@@ -313,7 +342,7 @@ func (g *sgen) conforming(s any, depth int) (any, bool) {
 		return nil
 	}
 	if get("$ref") != nil || get("allOf") != nil || get("anyOf") != nil || get("oneOf") != nil || get("not") != nil || get("enum") != nil || get("const") != nil ||
-		get("if") != nil || get("then") != nil || get("else") != nil || get("propertyNames") != nil || get("contains") != nil {
+		get("if") != nil || get("then") != nil || get("else") != nil || get("propertyNames") != nil || get("contains") != nil || get("patternProperties") != nil || get("dependentRequired") != nil {
 		return nil, false
 	}
 	tp, _ := get("type").(string)
